@@ -208,7 +208,6 @@ def do_two_sims(case, ob, site):
     v1, v2 = Vars('first_'), Vars()
     from .. import spec
     assume = [z3.Not(d) for d in spec.run(block, K, v2, reg_init='reset', mem_init='default').double_write]
-    assume += [z3.Not(d) for d in spec.run(block, K, v1, reg_init='reset', mem_init='default').double_write]
     with sym_env([block]):
         ref = run_sim(block, K, v2, kind='sim', reg_init='reset', mem_init='default', track='io', assumptions=assume)
 
@@ -217,9 +216,11 @@ def do_two_sims(case, ob, site):
 
     def run():
         cls = pyrtl.Simulation if kind == 'sim' else pyrtl.FastSimulation
-        first = simdrv.symbolize_mems(cls(block=block), block, kind)
-        for t in range(K):
-            first.step(ins(v1, t))
+        # the first simulator runs on plain ints (all-ones inputs: every enable high, every word non-zero) and on the very
+        # objects it created, so that whatever it leaves behind in shared state is really there
+        first = cls(block=block)
+        for t in range(K + 1):
+            first.step({w.name: w.bitmask for w in block.wirevector_subset(pyrtl.Input)})
         second = cls(block=block)
         # the second simulator's memories as it created them (an aliased default would already hold the first one's words)
         polluted = []
@@ -622,6 +623,43 @@ def replay(cex):
             if sim.inspect(n) != trace[n][-1]:
                 bad.append('%s: inspect=%r trace[-1]=%r' % (n, sim.inspect(n), trace[n][-1]))
         return bool(bad), '\n'.join(bad[:5])
+    if k == 'two_sims' and block is not None:
+        return replay_two_sims(c, block, mv)
+    if k == 'default_tracer' and block is not None:
+        cls = {'sim': pyrtl.Simulation, 'fast': pyrtl.FastSimulation, 'compiled': pyrtl.CompiledSimulation}[c['sim']]
+        ref, _, _ = concrete.sim_concrete(block, c['K'], mv, kind='sim', reg_init='reset', mem_init='default', track='all')
+        try:
+            with pyrtl.set_working_block(_decoy_block(), no_sanity_check=True):
+                sim = cls(block=block)
+                for t in range(c['K']):
+                    sim.step(concrete.input_vector(block, mv, t))
+        except Exception as e:
+            return True, '%s(block=b) with its default tracer and another working block raised %r' % (cls.__name__, e)
+        bad = ['%s: %r vs %r' % (n, list(sim.tracer.trace[n]), ref[n]) for n in sim.tracer.trace if n in ref and list(sim.tracer.trace[n]) != ref[n]]
+        return bool(bad), 'default tracer values differ from a full trace: %s' % bad[:4]
     ob = Obligations(PROP, c, 20000)
     KINDS[k](c, ob, site_of(c))
     return bool(ob.sat), 'obligations failing again on re-execution of the real code: %r' % [x['obligation'] for x in ob.sat][:5]
+
+
+def replay_two_sims(c, block, mv):
+    """concrete: a first simulator is driven with all-ones inputs (every enable high, every word non-zero), then a second one is
+    created with default arguments and driven with the counterexample's inputs; it must behave like a simulator created with
+    fresh, explicitly empty maps"""
+    cls = {'sim': pyrtl.Simulation, 'fast': pyrtl.FastSimulation, 'compiled': pyrtl.CompiledSimulation}[c['sim']]
+    K = c['K']
+    ins = sorted(block.wirevector_subset(pyrtl.Input), key=lambda w: w.name)
+    first = cls(block=block)
+    for t in range(K + 1):
+        first.step({w.name: w.bitmask for w in ins})
+    second = cls(block=block)
+    fresh = pyrtl.Simulation(block=block, register_value_map={}, memory_value_map={})
+    bad = []
+    for t in range(K):
+        vec = concrete.input_vector(block, mv, t)
+        second.step(vec)
+        fresh.step(vec)
+        for w in block.wirevector_subset(pyrtl.Output):
+            if second.inspect(w.name) != fresh.inspect(w.name):
+                bad.append('cycle %d: %s = %r in the second simulator, %r in a fresh one' % (t, w.name, second.inspect(w.name), fresh.inspect(w.name)))
+    return bool(bad), '\n'.join(bad[:6])
